@@ -400,6 +400,24 @@ func CheckC10(t Target, src *choice.Src, st *Stats) *Violation {
 	if c, d := contract(qw, qr, ref.Exit, g); c != "" {
 		return c10Violation("nofault:"+c+":"+classKey(qw), d, qw)
 	}
+	// a report stream that is broken from the first byte (`> /dev/full`): the property does not list it
+	// among the failure causes and the tool may even panic, but status and file effects must still
+	// agree: non-zero status => -o untouched, status 0 => the complete source
+	if !w.HasFlag("--quiet") {
+		sw := w.Clone()
+		sw.StdoutFailFrom = 1
+		sr := Exec(t, sw)
+		if st != nil {
+			st.note(sw, sr)
+			st.Probes["broken-stdout-runs"]++
+		}
+		if sr.Exit != 0 && sr.Exit != -2 && !sr.Out.Same(sr.OutBefore) {
+			return c10Violation("stdout-broken:out-changed-on-failure", fmt.Sprintf("with a report stream that rejects every write the command ended with status %d, yet the -o path changed: before %s, after %s", sr.Exit, obs(sr.OutBefore), obs(sr.Out)), w, sw)
+		}
+		if sr.Exit == 0 && g != nil && sr.Out.Sha != g.Sha {
+			return c10Violation("stdout-broken:exit0-incomplete-output", "with a broken report stream the command exited 0 without the complete source at -o", w, sw)
+		}
+	}
 	// ---- pass 2: every single fault of the run's operation history
 	sweep := sweepFaults(src, ref, w)
 	if st != nil {
@@ -554,6 +572,16 @@ func replayC10(t Target, v *Violation) (string, string) {
 		g = &o
 	}
 	parts := strings.SplitN(v.Sig, ":", 3)
+	if parts[0] == "stdout-broken" && len(v.Worlds) == 2 {
+		sr := Exec(t, v.Worlds[1])
+		if sr.Exit != 0 && sr.Exit != -2 && !sr.Out.Same(sr.OutBefore) {
+			return "stdout-broken:out-changed-on-failure", fmt.Sprintf("status %d, -o before %s, after %s", sr.Exit, obs(sr.OutBefore), obs(sr.Out))
+		}
+		if sr.Exit == 0 && g != nil && sr.Out.Sha != g.Sha {
+			return "stdout-broken:exit0-incomplete-output", "exit 0 without the complete source"
+		}
+		return "", ""
+	}
 	if strings.HasSuffix(v.Sig, ":quiet-changes-outcome") && parts[0] != "nofault" && len(v.Worlds) == 3 {
 		fr, qfr := Exec(t, v.Worlds[1]), Exec(t, v.Worlds[2])
 		if qfr.Exit != fr.Exit || !qfr.Out.Same(fr.Out) {
